@@ -106,6 +106,82 @@ def run_position(block, ctx):
     ctx.sample({"jde": block[0]})
 
 
+# -- the Moon crossing the ecliptic: the two adjacent doubles between which its latitude changes sign ---------------
+
+def _moon_views(j):
+    e = Epoch(j)
+    lon, lat, dist, par = Moon.geocentric_ecliptical_pos(e)
+    al, ab, ad, ap = Moon.apparent_ecliptical_pos(e)
+    ra, dec, d3, p3 = Moon.apparent_equatorial_pos(e)
+    return [lon._deg, lat._deg, dist, par._deg, al._deg, ab._deg, ad, ap._deg, ra._deg, dec._deg, d3, p3._deg,
+            Moon.illuminated_fraction_disk(e), Moon.position_bright_limb(e)._deg]
+
+
+VIEW_NAMES = ["longitude", "latitude", "distance", "parallax", "apparent longitude", "apparent latitude",
+              "apparent distance", "apparent parallax", "right ascension", "declination", "equatorial distance",
+              "equatorial parallax", "illuminated fraction", "position angle of the bright limb"]
+
+
+def check_continuity(case):
+    """Two adjacent doubles (4e-5 s apart): every view of the Moon's position moves by less than 1e-7 of its scale
+    (the Moon covers 2e-8 degree in that time)."""
+    lo, hi = case["lo"], case["hi"]
+    try:
+        a, b = _moon_views(lo), _moon_views(hi)
+    except Exception as ex:
+        return [("exception", "Moon position at JDE %r / %r raised %r" % (lo, hi, ex), None)]
+    out = []
+    for nm, x, y in zip(VIEW_NAMES, a, b):
+        d = abs(x - y)
+        if "longitude" in nm or "ascension" in nm or "angle" in nm:
+            d = abs(wrap180(x - y))
+        scale = 400000.0 if "distance" in nm else 1.0
+        if hi - lo > 1e-8:
+            # instants 1e-6 day (0.09 s) apart: the Moon covers 1.5e-5 degree
+            scale *= 1000.0 if "limb" in nm else 30.0 if ("itude" in nm or "ascension" in nm or "declin" in nm) else 1.0
+        if d > 1e-6 * scale:
+            out.append(("continuity", "Moon %s jumps from %r to %r between the adjacent instants JDE %r and %r (%s)"
+                        % (nm, x, y, lo, hi, case.get("what", "")), d / scale))
+    return out
+
+
+def run_latitude_zeros(spec, ctx):
+    j, end = spec
+    f = lambda t: Moon.geocentric_ecliptical_pos(Epoch(t))[1]._deg
+    prev = f(j)
+    found = 0
+    while j < end:
+        j2 = j + 1.0
+        cur = f(j2)
+        ctx.evals += 1
+        if (prev > 0.0) != (cur > 0.0):
+            lo, hi, slo = j, j2, prev > 0.0
+            while True:
+                mid = lo + (hi - lo) / 2.0
+                if mid <= lo or mid >= hi:
+                    break
+                ctx.evals += 1
+                if (f(mid) > 0.0) == slo:
+                    lo = mid
+                else:
+                    hi = mid
+            found += 1
+            ctx.nt_count += 1
+            case = {"lo": lo, "hi": hi, "what": "latitude changes sign"}
+            for c in (case, {"lo": lo - 1e-6, "hi": lo, "what": "1e-6 d before the latitude changes sign"},
+                      {"lo": hi, "hi": hi + 1e-6, "what": "1e-6 d after the latitude changes sign"}):
+                for site, msg, dev in check_continuity(c):
+                    ctx.viol(c, msg, dev=dev, site="latitude_zero_" + site)
+            for t in (lo, hi):
+                for site, msg, dev in check_position(t):
+                    ctx.viol({"jde": t}, msg, dev=dev, site="latitude_zero_" + site)
+        j, prev = j2, cur
+    ctx.count("latitude_zero_crossings", found)
+    ctx.outcome(found)
+    ctx.obs(spec, found)
+    ctx.sample({"lo": spec[0], "hi": math.nextafter(spec[0], math.inf), "what": "sample"})
+
+
 # -- finders --------------------------------------------------------------------------------------
 
 def call(fn, target, j):
@@ -493,6 +569,11 @@ def clauses(tier):
           for y in range(-1999, 3999, 100)]
     return [
         Clause("month_seams", ms, run_month_seams, lambda c: [m for _, m, _ in check_month_seam(c)], floor=100000),
+        Clause("latitude_zeros", [(y2jde(y) + 100.0 * k, y2jde(y) + 100.0 * (k + 1))
+                                  for y in ((-1990, -1000, 0, 1000, 2000, 3000, 3990) if tier == "thorough"
+                                            else (-1990, 2000, 3990)) for k in range(6)],
+               run_latitude_zeros, lambda c: [m for _, m, _ in (check_continuity(c) if "lo" in c
+                                                               else check_position(c["jde"]))], floor=100),
         Clause("every_event", every, run_every_event, replay_sweep, floor=100000),
         Clause("year_ends", chunks(ye, 64), run_year_ends, lambda c: [m for _, m, _ in check_year_end(c)],
                floor=10000),
